@@ -227,7 +227,8 @@ class VCF(Harness):
                  "NamedBufferExtractor.get_field_by_name/has_field_name", "VCFMatrixBuffer (GenotypeRowEncoding.encode/decode)",
                  "TextBufferExtractor.get_padded_field(stop_at=':')", "FileBuffer.read_header")
     bounds = {"quick": "1-2 records; widths chrom 1-2, POS 1-3 digits, ID 1-2, REF/ALT 1-2; INFO 'DP=<1-2 digits>' or 'FL;DP=<d>'; FORMAT GT or GT:DP "
-                       "with 2 samples whose alleles/separators are symbolic over {0,1,2,.}x{/,|}; one sample may lack its sub-fields",
+                       "with 2 samples whose alleles/separators are symbolic over {0,1,2,.}x{/,|}; one sample may lack its sub-fields; "
+                       "histories: the same file parsed first with another buffer type (VCFBuffer/VCFBuffer2/VCFMatrixBuffer/PhasedVCFMatrixBuffer)",
               "thorough": "3 records, wider fields"}
 
     def skeletons(self, tier, seed):
@@ -242,10 +243,17 @@ class VCF(Harness):
             sets.append([R(1, 1, 1, 1, 1, "dp", 1, "GT:DP", ["gt:3", "gt"]), R(3, 4, 1, 3, 1, "fl_dp", 2, "GT:DP", ["gt:1", "gt:1"]),
                          R(1, 1, 1, 1, 1, "dp", 1, "GT:DP", ["gt:1", "gt:3"])])
         out = []
+        bufs = ("VCFBuffer2", "VCFBuffer", "VCFMatrixBuffer")
         for recs in sets:
-            for buf in ("VCFBuffer2", "VCFBuffer", "VCFMatrixBuffer"):
+            for buf in bufs:
                 for crlf in ((False, True) if buf == "VCFBuffer" else (False,)):
-                    out.append(dict(recs=recs, buffer=buf, crlf=crlf))
+                    out.append(dict(recs=recs, buffer=buf, crlf=crlf, prior=None))
+        # history: the same header was parsed before with another buffer type in this process (class-level caches keyed by header)
+        for recs in sets[:1] if tier == "quick" else sets:
+            for prior in bufs + ("PhasedVCFMatrixBuffer",):
+                for buf in bufs:
+                    if buf != prior:
+                        out.append(dict(recs=recs, buffer=buf, crlf=False, prior=prior))
         return out
 
     def inputs(self, skel, V):
@@ -299,6 +307,12 @@ class VCF(Harness):
         from bionumpy.io.npdataclassreader import NpDataclassReader
         import bionumpy.io.vcf_buffers as vb
         buf = getattr(vb, skel["buffer"])
+        # the class-level caches are process state: start every call from the state of a fresh process, then replay the history
+        vb.VCFBuffer.vcfentry_cache.clear()
+        vb.VCFBuffer.info_cache.clear()
+        if skel.get("prior"):
+            pd = NpDataclassReader(NumpyFileReader(ctx.file(self._content(skel, x)), getattr(vb, skel["prior"])), lazy=False).read()
+            len(pd), pd.info
         d = NpDataclassReader(NumpyFileReader(ctx.file(self._content(skel, x)), buf), lazy=False).read()
         res = dict(n=len(d), chrom=ctx.lst(d.chromosome.raw()), pos=ctx.lst(d.position), id=ctx.lst(d.id), ref=ctx.lst(d.ref_seq),
                    alt=ctx.lst(d.alt_seq), filter=ctx.lst(d.filter), dp=ctx.lst(d.info.DP), fl=ctx.lst(d.info.FL))
